@@ -88,6 +88,11 @@ def cases(tier, seed):
     yield dict(mtype="images", ens=[2], dose="total_high", samples=2, seed=7, signal="identical", tier=tier, data_seed=901)
     yield dict(mtype="diffraction", ens=[3, 2], dose="per_area", samples=1, seed=0, signal="identical", tier=tier,
                data_seed=902)
+    # large arrays (more than 2**20 and 2**21 elements in one eager array): independence must not depend on the size
+    yield dict(mtype="images", ens=[2], dose="total_high", samples=1, seed=7, signal="identical", tier=tier, data_seed=903,
+               base=[1024, 1024])
+    yield dict(mtype="diffraction", ens=[3], dose="total_high", samples=1, seed=3, signal="identical", tier=tier, data_seed=904,
+               base=[512, 2048])
 
 
 # ------------------------------------------------------------------------------------------------
@@ -132,7 +137,7 @@ def _build(case):
 
     r = rng_for(case["data_seed"], "C31-signal", case["mtype"], case["signal"])
     ens = tuple(case["ens"])
-    base = tuple(BOUNDS["base_shapes"][case["mtype"]])
+    base = tuple(case.get("base") or BOUNDS["base_shapes"][case["mtype"]])
     one = r.uniform(0.3, 1.6, base).astype(np.float32)
     if case["signal"] == "identical":
         sig = np.broadcast_to(one, ens + base).copy()
@@ -290,7 +295,8 @@ def _check_array(acc, tag, out, sig, doses, has_dose_axis, samples, ens, base):
                 det = (f"{tag}: dose index {di}: members (sample, ensemble index...) {a} and {b} have identical signal and "
                        f"received IDENTICAL noise ({len(same)} of {len(mems) * (len(mems) - 1) // 2} pairs identical; chance "
                        f"of coincidence 1e{lc:.0f})")
-            acc.add(OB_DISTINCT, okd, det, True)
+            # eager evaluation is reported on its own obligation: the recorded finding is about lazy blocks only
+            acc.add(OB_DISTINCT + ("/eager" if tag == "eager" else ""), okd, det, True)
     # two dose members with the same dose (sequence mode has 25, 25): identical signal*dose => must differ too
     if has_dose_axis:
         for d1, d2 in itertools.combinations(range(len(doses)), 2):
